@@ -313,8 +313,12 @@ impl<F: Flavor> Sys<F> {
                     out.p("C17", "is-terminated", format!("slot {}: is_terminated()={} but completed={}", i, s.fut.get().is_terminated(), s.meta.done));
                 }
                 if !self.open && s.meta.pending() && !fresh(G, i, &s.meta) {
-                    let p = if self.value.is_some() { "C12" } else { "C11" };
-                    out.p(p, "pending-not-woken", format!("slot {}: the channel was {} while this receiver was pending, but it has not been woken through the waker of its latest poll", i, if self.value.is_some() { "fulfilled" } else { "closed" }));
+                    // C12: "every receiver pending at the moment of the send or close has been woken";
+                    // for a close C11 says the same ("after it ... every pending future has been woken")
+                    let props: &[&'static str] = if self.value.is_some() { &["C12"] } else { &["C11", "C12"] };
+                    for &p in props {
+                        out.p(p, "pending-not-woken", format!("slot {}: the channel was {} while this receiver was pending, but it has not been woken through the waker of its latest poll", i, if self.value.is_some() { "fulfilled" } else { "closed" }));
+                    }
                 }
             }
         }
